@@ -106,6 +106,20 @@ func runSelfTest(repo, prop string, print bool, out map[string]any) int {
 		}
 		for _, w := range m.Whole {
 			abs := filepath.Join(repo, w.File)
+			if w.Base == "" {
+				// a file the variant adds: it must not exist yet
+				if _, err := os.Stat(abs); err == nil {
+					skipped = "a file this variant adds exists already: " + w.File
+					break
+				}
+				repl, err := os.ReadFile(filepath.Join(verifDir, w.With))
+				if err != nil {
+					skipped = err.Error()
+					break
+				}
+				overlay[abs] = repl
+				continue
+			}
 			cur, err := os.ReadFile(abs)
 			if err != nil {
 				skipped = err.Error()
